@@ -27,12 +27,22 @@
                                            −0.0 and (−1, 0) give 0
     drv_oracle_to_float, drv_oracle_from_float, drv_oracle_high_bits, drv_oracle_range
                                            the independently written oracles of the driver equal these specs
+  Layer link (NB/Model/FloatD.lean: the float conversions with the BigUint operators `<<=`, `>>=`, `bits()`
+  and `fls` as the DIGIT-level models of C07 — `biguintShl`, `biguintShr`, `bitsU`, `lzDigit` — panics propagated):
+    high_bitsD_refines, to_floatD_refines, bigint_to_floatD_refines, from_decodedD_refines,
+    fromF64D_refines, fromF32D_refines, bigint_from_f64D_refines, bigint_from_f32D_refines
+                                           digit level = NB.Model.Float level (every bit pattern / canonical operand)
+    to_floatD_spec, to_f64D_spec, to_f32D_spec, bigint_to_floatD_spec,
+    fromF64D_spec, fromF32D_spec, bigint_from_f64D_spec, bigint_from_f32D_spec
+                                           the specs above, transferred; no shift panic is reachable
+    The driver (NB.Drv.C08) computes the model column of u/i.to_f32/f64, u/i.from_f32/f64 and u.high_bits with them.
   All are full strength; nothing is `_partial`.  Modelled-not-verified hardware behaviour is listed in
   the header of NB/Model/Float.lean (u64→float cast is RNE, powi(2,e) exact, ·2^e exact or ∞, trunc,
   integer_decode, f32→f64 widening).
 -/
 import NB.Lemmas.Convert
 import NB.Lemmas.Float
+import NB.Lemmas.FloatD
 import NB.Drv.C08
 namespace NB
 open NB.Conv NB.Drv.C08
@@ -724,10 +734,10 @@ theorem fromF64_spec (b : Nat) : U.fromF64 b = fromFloatSpecU f64 b := by
         rw [hq]
         exact sign_if _ _ hsg2 hpos _
 
-theorem fromBiguint_ofNat (t : Nat) : I.fromBiguint (ofNat t) = BigInt.ofInt (t : Int) := by
+theorem conv_fromBiguint_ofNat (t : Nat) : I.fromBiguint (ofNat t) = BigInt.ofInt (t : Int) := by
   rw [bigint_from_biguint_val (ofNat_canon t), ofNat_val]
 
-theorem neg_ofInt (t : Nat) :
+theorem conv_neg_ofInt (t : Nat) :
     (⟨(BigInt.ofInt (t : Int)).sign.neg, (BigInt.ofInt (t : Int)).mag⟩ : BigInt) = BigInt.ofInt (-(t : Int)) := by
   unfold BigInt.ofInt
   by_cases h : t = 0
@@ -781,7 +791,7 @@ theorem bigint_from_f64_spec (b : Nat) (hb : b < 2 ^ 64) : I.fromF64 b = fromFlo
           rw [if_neg hfin, hT, if_neg (fun c => c.2 rfl)]
         rw [hu, hT]
         show some (I.fromBiguint (ofNat 0)) = _
-        rw [fromBiguint_ofNat]; rfl
+        rw [conv_fromBiguint_ofNat]; rfl
       · rw [if_neg hz]
         -- `-n` clears the sign bit and leaves exponent and fraction alone
         rw [fSign64] at hs
@@ -797,7 +807,7 @@ theorem bigint_from_f64_spec (b : Nat) (hb : b < 2 ^ 64) : I.fromF64 b = fromFlo
         rw [spec_u_of_pos (by rw [hfe]; exact hfin) hfs, hT]
         show some (⟨(I.fromBiguint (ofNat (floatTruncAbs f64 b))).sign.neg,
           (I.fromBiguint (ofNat (floatTruncAbs f64 b))).mag⟩ : BigInt) = _
-        rw [fromBiguint_ofNat, neg_ofInt]
+        rw [conv_fromBiguint_ofNat, conv_neg_ofInt]
     · rw [if_neg hs]
       have hs0 : (fSign f64 b == 0) = true := by
         rw [fSign64] at *
@@ -805,7 +815,7 @@ theorem bigint_from_f64_spec (b : Nat) (hb : b < 2 ^ 64) : I.fromF64 b = fromFlo
         rw [this]; rfl
       rw [hs0, Bool.true_or, if_pos rfl, spec_u_of_pos hfin hs]
       show some (I.fromBiguint (ofNat (floatTruncAbs f64 b))) = _
-      rw [fromBiguint_ofNat, if_neg hs]
+      rw [conv_fromBiguint_ofNat, if_neg hs]
 
 theorem f32ToF64_widen (b : Nat) : f32ToF64 b = widen (b / 2 ^ 31 % 2) (b / 2 ^ 23 % 256) (b % 2 ^ 23) :=
   f32ToF64_eq b
@@ -1095,5 +1105,68 @@ example : U.toFloat f32 [0, 0xffffff8000000000] = .ok 0x7f800000 := by decide +k
 example : U.toFloat f32 [0, 0xffffff7fffffffff] = .ok 0x7f7fffff := by decide +kernel
 example : PTy.InRange .i8 (-128) ∧ ¬ PTy.InRange .i8 (-129) ∧ PTy.InRange .u128 (2 ^ 128 - 1) := by decide
 example : f32.Valid ∧ f64.Valid := by decide
+
+/-! ## layer link: the digit-level float conversions (NB.Model.FloatD) refine NB.Model.Float
+
+  `U.toFloatD`, `I.toFloatD`, `U.fromF64D`, … are the same functions with `self.bits()` = `NB.C07.bitsU`,
+  `fls` through the `u64::leading_zeros` model `NB.C07.lzDigit`, `ret <<= e` = `NB.C07.biguintShl`,
+  `ret >>= e` = `NB.C07.biguintShr` (`Except Panic`: negative amount / capacity overflow propagated).
+  Operator theorems used: `shl_spec`, `shr_spec` (C07), `fromU64_eq_ofNat`. -/
+
+/-- `high_bits_to_u64` started from the digit-level `bits()`: same function on every digit vector -/
+theorem high_bitsD_refines (v : List Nat) : highBitsToU64D v = highBitsToU64 v := highBitsToU64D_eq v
+
+/-- digit-level `to_f32/to_f64` (bits through `bitsU`, `fls` through `leading_zeros`) refines the model -/
+theorem to_floatD_refines (f : FFmt) {x : List Nat} (h : Canon x) : U.toFloatD f x = U.toFloat f x :=
+  toFloatD_eq f h
+
+/-- **to_float_spec, digit level**: the bit pattern is the IEEE encoding of `val x` rounded to nearest even -/
+theorem to_floatD_spec (f : FFmt) (hf : f.Valid) {x : List Nat} (h : Canon x) :
+    U.toFloatD f x = .ok (ieeeRne f (val x)) := by
+  rw [to_floatD_refines f h, to_float_spec f hf h]
+
+theorem to_f64D_spec {x : List Nat} (h : Canon x) : U.toFloatD f64 x = .ok (ieeeRne f64 (val x)) :=
+  to_floatD_spec f64 f64_valid h
+theorem to_f32D_spec {x : List Nat} (h : Canon x) : U.toFloatD f32 x = .ok (ieeeRne f32 (val x)) :=
+  to_floatD_spec f32 f32_valid h
+
+theorem bigint_to_floatD_refines (f : FFmt) {x : BigInt} (h : x.Canon) : I.toFloatD f x = I.toFloat f x :=
+  bigintToFloatD_eq f h
+
+theorem bigint_to_floatD_spec (f : FFmt) (hf : f.Valid) {x : BigInt} (h : x.Canon) :
+    I.toFloatD f x = .ok (if x.val < 0 then ieeeRne f x.val.natAbs + f.signBit else ieeeRne f x.val.natAbs) := by
+  rw [bigint_to_floatD_refines f h, bigint_to_float_spec f hf h]
+
+/-- the tail of `from_f64` with the digit-level `<<=` / `>>=`: for every `u64` mantissa and every exponent
+    field the shifts return (no `negshift`, no `capacity overflow`) exactly `* 2^e` resp. `⌊/ 2^e⌋` -/
+theorem from_decodedD_refines (mantissa expo : Nat) (neg : Bool) (hm : mantissa < B) (he : expo < B) :
+    U.fromDecodedD mantissa expo neg = .ok (U.fromDecoded mantissa expo neg) :=
+  fromDecodedD_eq mantissa expo neg hm he
+
+/-- digit-level `BigUint::from_f64` refines the model on EVERY bit pattern -/
+theorem fromF64D_refines (b : Nat) : U.fromF64D b = .ok (U.fromF64 b) := fromF64D_eq b
+theorem fromF32D_refines (b : Nat) : U.fromF32D b = .ok (U.fromF32 b) := fromF32D_eq b
+theorem bigint_from_f64D_refines (b : Nat) : I.fromF64D b = .ok (I.fromF64 b) := bigintFromF64D_eq b
+theorem bigint_from_f32D_refines (b : Nat) : I.fromF32D b = .ok (I.fromF32 b) := bigintFromF32D_eq b
+
+/-- **fromF64_spec, digit level**: `None` for NaN/±∞ and values ≤ −1, else the canonical digits of `⌊x⌋` -/
+theorem fromF64D_spec (b : Nat) : U.fromF64D b = .ok (fromFloatSpecU f64 b) := by
+  rw [fromF64D_refines, fromF64_spec]
+theorem fromF32D_spec (b : Nat) : U.fromF32D b = .ok (fromFloatSpecU f32 b) := by
+  rw [fromF32D_refines, fromF32_spec]
+theorem bigint_from_f64D_spec (b : Nat) (hb : b < 2 ^ 64) : I.fromF64D b = .ok (fromFloatSpecI f64 b) := by
+  rw [bigint_from_f64D_refines, bigint_from_f64_spec b hb]
+theorem bigint_from_f32D_spec (b : Nat) : I.fromF32D b = .ok (fromFloatSpecI f32 b) := by
+  rw [bigint_from_f32D_refines, bigint_from_f32_spec]
+
+-- non-vacuity of the layer link: the D7 input, a left shift by 971 bits (f64::MAX), a right shift
+-- (3.5 → 3), a sub-normal shifted out entirely
+example : U.toFloatD f64 [2, 0x800, 1] = .ok 0x47f0000000000001 := by decide +kernel
+example : U.toFloatD f32 [0, 0xffffff8000000000] = .ok 0x7f800000 := by decide +kernel
+example : (U.fromF64D 0x7fefffffffffffff).map (fun o => o.map List.length) = .ok (some 16) := by decide +kernel
+example : U.fromF64D 0x400c000000000000 = .ok (some [3]) := by decide +kernel
+example : U.fromF64D 0x0000000000000001 = .ok (some []) := by decide +kernel
+example : I.fromF64D 0xc008000000000000 = .ok (some ⟨.minus, [3]⟩) := by decide +kernel
+example : I.fromF32D 0xff7fffff = .ok (some ⟨.minus, [0, 0xffffff0000000000]⟩) := by decide +kernel
 
 end NB
